@@ -399,6 +399,15 @@ class Models:
                 if okk:
                     return r
                 raise Inconclusive('Iterator::next on %r' % (tgt,))
+            if tb == 'Iterator' and name in ITER:
+                self.called['Iterator::' + name] = self.called.get('Iterator::' + name, 0) + 1
+                return ITER[name](it, ci, args, dest_ty)
+            if tb == 'Extend' and name == 'extend':
+                key = (ci.qbase or '').lstrip('&') + '::extend'
+                h = TABLE.get(key)
+                if h:
+                    self.called[key] = self.called.get(key, 0) + 1
+                    return h(it, ci, args, dest_ty)
             if tb == 'Clone' and name == 'clone':
                 self.called['Clone::clone'] = self.called.get('Clone::clone', 0) + 1
                 return deep_clone(deref(args[0]))
@@ -1198,3 +1207,846 @@ def _(it, ci, a, d):
 def _(it, ci, a, d):
     arr = a[0].cell[0].fields[1].fields[0].fields[0]
     return VecV(list(arr.fields))
+
+
+# ================================================================================================
+# Iterator adaptors (generic over any iterator value: Opaque with .next(), or repo iterator structs)
+
+class FnIter:
+    """iterator defined by a python generator function"""
+
+    def __init__(self, gen):
+        self.gen = gen
+
+    def next(self):
+        try:
+            return next(self.gen)
+        except StopIteration:
+            return None
+
+
+def iter_next(it, v):
+    """next element of an iterator value (or None)"""
+    tgt = deref(v)
+    if type(tgt) is Opaque and hasattr(tgt.data, 'next'):
+        return tgt.data.next()
+    cell = [tgt]
+    okk, r = it.models.call_mir(it, 'next', [Ref(cell, 0)], trait='Iterator')
+    if not okk:
+        raise Inconclusive('not an iterator: %r' % (tgt,))
+    r = it.concretize(r)
+    return r.fields[0] if r.variant == 'Some' else None
+
+
+def iter_drain(it, v):
+    while True:
+        x = iter_next(it, v)
+        if x is None:
+            return
+        yield x
+
+
+def truthy(it, b):
+    return it.decide(b, 'closure_bool')
+
+
+ITER = {}
+
+
+def itermethod(name):
+    def deco(fn):
+        ITER[name] = fn
+        return fn
+    return deco
+
+
+@itermethod('map')
+def _(it, ci, a, d):
+    src, f = a
+    return Opaque('Map', FnIter(it.call_value(f, [x]) for x in iter_drain(it, src)))
+
+
+@itermethod('filter')
+def _(it, ci, a, d):
+    src, f = a
+    return Opaque('Filter', FnIter(x for x in iter_drain(it, src) if truthy(it, it.call_value(f, [Ref([x], 0)]))))
+
+
+@itermethod('filter_map')
+def _(it, ci, a, d):
+    src, f = a
+
+    def g():
+        for x in iter_drain(it, src):
+            r = it.concretize(it.call_value(f, [x]))
+            if r.variant == 'Some':
+                yield r.fields[0]
+    return Opaque('FilterMap', FnIter(g()))
+
+
+@itermethod('find')
+def _(it, ci, a, d):
+    src, f = a
+    for x in iter_drain(it, src):
+        if truthy(it, it.call_value(f, [Ref([x], 0)])):
+            return some(x)
+    return none()
+
+
+@itermethod('find_map')
+def _(it, ci, a, d):
+    src, f = a
+    for x in iter_drain(it, src):
+        r = it.concretize(it.call_value(f, [x]))
+        if r.variant == 'Some':
+            return r
+    return none()
+
+
+@itermethod('position')
+def _(it, ci, a, d):
+    src, f = a
+    for i, x in enumerate(iter_drain(it, src)):
+        if truthy(it, it.call_value(f, [x])):
+            return some(i)
+    return none()
+
+
+@itermethod('any')
+def _(it, ci, a, d):
+    src, f = a
+    for x in iter_drain(it, src):
+        if truthy(it, it.call_value(f, [x])):
+            return True
+    return False
+
+
+@itermethod('all')
+def _(it, ci, a, d):
+    src, f = a
+    for x in iter_drain(it, src):
+        if not truthy(it, it.call_value(f, [x])):
+            return False
+    return True
+
+
+@itermethod('for_each')
+def _(it, ci, a, d):
+    src, f = a
+    for x in iter_drain(it, src):
+        it.call_value(f, [x])
+    return UNIT
+
+
+@itermethod('fold')
+def _(it, ci, a, d):
+    src, init, f = a
+    acc = init
+    for x in iter_drain(it, src):
+        acc = it.call_value(f, [acc, x])
+    return acc
+
+
+@itermethod('count')
+def _(it, ci, a, d):
+    return sum(1 for _ in iter_drain(it, a[0]))
+
+
+@itermethod('last')
+def _(it, ci, a, d):
+    r = None
+    for x in iter_drain(it, a[0]):
+        r = x
+    return opt_of(r)
+
+
+@itermethod('nth')
+def _(it, ci, a, d):
+    n = a[1]
+    for i, x in enumerate(iter_drain(it, a[0])):
+        if i == n:
+            return some(x)
+    return none()
+
+
+@itermethod('skip')
+def _(it, ci, a, d):
+    src, n = a
+
+    def g():
+        for i, x in enumerate(iter_drain(it, src)):
+            if i >= n:
+                yield x
+    return Opaque('Skip', FnIter(g()))
+
+
+@itermethod('take')
+def _(it, ci, a, d):
+    src, n = a
+
+    def g():
+        for i, x in enumerate(iter_drain(it, src)):
+            if i >= n:
+                return
+            yield x
+    return Opaque('Take', FnIter(g()))
+
+
+@itermethod('take_while')
+def _(it, ci, a, d):
+    src, f = a
+
+    def g():
+        for x in iter_drain(it, src):
+            if not truthy(it, it.call_value(f, [Ref([x], 0)])):
+                return
+            yield x
+    return Opaque('TakeWhile', FnIter(g()))
+
+
+@itermethod('skip_while')
+def _(it, ci, a, d):
+    src, f = a
+
+    def g():
+        skipping = True
+        for x in iter_drain(it, src):
+            if skipping and truthy(it, it.call_value(f, [Ref([x], 0)])):
+                continue
+            skipping = False
+            yield x
+    return Opaque('SkipWhile', FnIter(g()))
+
+
+@itermethod('chain')
+def _(it, ci, a, d):
+    s1, s2 = a
+
+    def g():
+        for x in iter_drain(it, s1):
+            yield x
+        s2i = it.models.std_into_iter(it, s2) if not (type(s2) is Opaque and hasattr(s2.data, 'next')) else s2
+        for x in iter_drain(it, s2i):
+            yield x
+    return Opaque('Chain', FnIter(g()))
+
+
+@itermethod('zip')
+def _(it, ci, a, d):
+    s1, s2 = a
+    s2i = s2 if (type(s2) is Opaque and hasattr(s2.data, 'next')) else it.models.std_into_iter(it, s2)
+
+    def g():
+        while True:
+            x = iter_next(it, s1)
+            if x is None:
+                return
+            y = iter_next(it, s2i)
+            if y is None:
+                return
+            yield Tup([x, y])
+    return Opaque('Zip', FnIter(g()))
+
+
+@itermethod('rev')
+def _(it, ci, a, d):
+    items = list(iter_drain(it, a[0]))
+    items.reverse()
+    return Opaque('Rev', PyIter(items))
+
+
+@itermethod('enumerate')
+def _(it, ci, a, d):
+    return Opaque('Enumerate', FnIter(Tup([i, x]) for i, x in enumerate(iter_drain(it, a[0]))))
+
+
+@itermethod('peekable')
+def _(it, ci, a, d):
+    src = a[0]
+    if type(src) is Opaque and hasattr(src.data, 'next'):
+        return Opaque('Peekable', PeekIter(src.data))
+    return Opaque('Peekable', PeekIter(FnIter(iter_drain(it, src))))
+
+
+@itermethod('cloned')
+def _(it, ci, a, d):
+    return Opaque('Cloned', FnIter(deep_clone(deref(x)) for x in iter_drain(it, a[0])))
+
+
+@itermethod('copied')
+def _(it, ci, a, d):
+    return Opaque('Copied', FnIter(copyval(deref(x)) for x in iter_drain(it, a[0])))
+
+
+@itermethod('flatten')
+def _(it, ci, a, d):
+    def g():
+        for x in iter_drain(it, a[0]):
+            x = it.concretize(x)
+            if type(x) is Enum and x.ty == 'Option':
+                if x.variant == 'Some':
+                    yield x.fields[0]
+                continue
+            xi = x if (type(x) is Opaque and hasattr(x.data, 'next')) else it.models.std_into_iter(it, x)
+            for y in iter_drain(it, xi):
+                yield y
+    return Opaque('Flatten', FnIter(g()))
+
+
+@itermethod('collect')
+def _(it, ci, a, d):
+    items = list(iter_drain(it, a[0]))
+    tgt = ''
+    m = re.search(r'collect::<(.*)>$', ci.path.strip())
+    if m:
+        tgt = norm_type(m.group(1))
+    if not tgt and d:
+        tgt = norm_type(d)
+    if tgt == 'Vec':
+        return VecV(items)
+    if tgt == 'String':
+        out = []
+        for x in items:
+            out.append(x.c if type(x) is Char else sv(x))
+        return StringV(''.join(out))
+    if tgt == 'HashMap':
+        hm = HashMapV()
+        for x in items:
+            k, v = x.fields
+            if type(k) is not StringV:
+                k = StringV(sv(k))
+            if k.guard is not None:
+                raise Inconclusive('collect of guarded keys')
+            hm.entries.pop(k.s, None)
+            hm.entries[k.s] = HEntry(k, True, [v])
+        return Opaque('HashMap', hm)
+    raise Inconclusive('collect into %r (%s)' % (tgt, ci.path[-80:]))
+
+
+@itermethod('sum')
+def _(it, ci, a, d):
+    s = 0
+    for x in iter_drain(it, a[0]):
+        s = s + deref(x)
+    return s
+
+
+@itermethod('max')
+def _(it, ci, a, d):
+    items = [deref(x) for x in iter_drain(it, a[0])]
+    if any(is_sym(x) for x in items):
+        raise Inconclusive('max of symbolic')
+    return opt_of(max(items) if items else None)
+
+
+@itermethod('min')
+def _(it, ci, a, d):
+    items = [deref(x) for x in iter_drain(it, a[0])]
+    if any(is_sym(x) for x in items):
+        raise Inconclusive('min of symbolic')
+    return opt_of(min(items) if items else None)
+
+
+# ---- more Option / Result combinators
+@model('Option::unwrap_or')
+def _(it, ci, a, d):
+    v = it.concretize(a[0])
+    return v.fields[0] if v.variant == 'Some' else a[1]
+
+
+@model('Option::unwrap_or_default', 'Result::unwrap_or_default')
+def _(it, ci, a, d):
+    v = it.concretize(a[0])
+    if v.variant in ('Some', 'Ok'):
+        return v.fields[0]
+    t = norm_type(d) if d else ''
+    if t == 'String':
+        return StringV('')
+    if t == 'PathBuf':
+        return PathV('')
+    if t == 'Vec':
+        return VecV([])
+    if t in ('usize', 'u32', 'u64', 'i32'):
+        return 0
+    if t == 'bool':
+        return False
+    raise Inconclusive('unwrap_or_default for %s' % d)
+
+
+@model('Option::unwrap_or_else')
+def _(it, ci, a, d):
+    v = it.concretize(a[0])
+    return v.fields[0] if v.variant == 'Some' else it.call_value(a[1], [])
+
+
+@model('Result::unwrap_or_else')
+def _(it, ci, a, d):
+    v = it.concretize(a[0])
+    return v.fields[0] if v.variant == 'Ok' else it.call_value(a[1], [v.fields[0]])
+
+
+@model('Result::unwrap_or')
+def _(it, ci, a, d):
+    v = it.concretize(a[0])
+    return v.fields[0] if v.variant == 'Ok' else a[1]
+
+
+@model('Option::map_or')
+def _(it, ci, a, d):
+    v = it.concretize(a[0])
+    return it.call_value(a[2], [v.fields[0]]) if v.variant == 'Some' else a[1]
+
+
+@model('Option::map_or_else')
+def _(it, ci, a, d):
+    v = it.concretize(a[0])
+    return it.call_value(a[2], [v.fields[0]]) if v.variant == 'Some' else it.call_value(a[1], [])
+
+
+@model('Option::and_then')
+def _(it, ci, a, d):
+    v = it.concretize(a[0])
+    return it.call_value(a[1], [v.fields[0]]) if v.variant == 'Some' else none()
+
+
+@model('Result::and_then')
+def _(it, ci, a, d):
+    v = it.concretize(a[0])
+    return it.call_value(a[1], [v.fields[0]]) if v.variant == 'Ok' else v
+
+
+@model('Result::map')
+def _(it, ci, a, d):
+    v = it.concretize(a[0])
+    return ok(it.call_value(a[1], [v.fields[0]])) if v.variant == 'Ok' else v
+
+
+@model('Option::or')
+def _(it, ci, a, d):
+    v = it.concretize(a[0])
+    return v if v.variant == 'Some' else a[1]
+
+
+@model('Option::or_else')
+def _(it, ci, a, d):
+    v = it.concretize(a[0])
+    return v if v.variant == 'Some' else it.call_value(a[1], [])
+
+
+@model('Option::filter')
+def _(it, ci, a, d):
+    v = it.concretize(a[0])
+    if v.variant == 'Some' and truthy(it, it.call_value(a[1], [Ref(v.fields, 0)])):
+        return v
+    return none()
+
+
+@model('Option::flatten')
+def _(it, ci, a, d):
+    v = it.concretize(a[0])
+    return it.concretize(v.fields[0]) if v.variant == 'Some' else none()
+
+
+@model('Option::ok_or_else')
+def _(it, ci, a, d):
+    v = it.concretize(a[0])
+    return ok(v.fields[0]) if v.variant == 'Some' else err(it.call_value(a[1], []))
+
+
+@model('Result::ok')
+def _(it, ci, a, d):
+    v = it.concretize(a[0])
+    return some(v.fields[0]) if v.variant == 'Ok' else none()
+
+
+@model('Result::err')
+def _(it, ci, a, d):
+    v = it.concretize(a[0])
+    return some(v.fields[0]) if v.variant == 'Err' else none()
+
+
+@model('Option::as_deref')
+def _(it, ci, a, d):
+    v = it.concretize(deref(a[0]))
+    if v.variant == 'Some':
+        x = v.fields[0]
+        return some(sv(x) if type(deref(x)) in (StringV, str) else x)
+    return none()
+
+
+@model('Option::as_mut')
+def _(it, ci, a, d):
+    v = it.concretize(deref(a[0]))
+    return some(Ref(v.fields, 0)) if v.variant == 'Some' else none()
+
+
+@model('Option::take')
+def _(it, ci, a, d):
+    r = a[0]
+    v = it.concretize(r.get())
+    r.set(none())
+    return v
+
+
+@model('Option::cloned', 'Option::copied')
+def _(it, ci, a, d):
+    v = it.concretize(a[0])
+    return some(deep_clone(deref(v.fields[0]))) if v.variant == 'Some' else none()
+
+
+@model('Option::is_some_and')
+def _(it, ci, a, d):
+    v = it.concretize(a[0])
+    return v.variant == 'Some' and truthy(it, it.call_value(a[1], [v.fields[0]]))
+
+
+# ---- more Vec / HashMap / String
+@model('Vec::extend', 'Vec::extend_from_slice')
+def _(it, ci, a, d):
+    v = deref(a[0])
+    src = a[1]
+    si = src if (type(src) is Opaque and hasattr(src.data, 'next')) else it.models.std_into_iter(it, src)
+    for x in iter_drain(it, si):
+        v.fields.append(x)
+    return UNIT
+
+
+@model('Vec::insert')
+def _(it, ci, a, d):
+    v = deref(a[0])
+    if a[1] > len(v.fields):
+        raise RustPanic('insertion index out of bounds')
+    v.fields.insert(a[1], a[2])
+    return UNIT
+
+
+@model('Vec::remove')
+def _(it, ci, a, d):
+    v = deref(a[0])
+    if a[1] >= len(v.fields):
+        raise RustPanic('removal index out of bounds')
+    return v.fields.pop(a[1])
+
+
+@model('Vec::truncate')
+def _(it, ci, a, d):
+    v = deref(a[0])
+    del v.fields[a[1]:]
+    return UNIT
+
+
+@model('Vec::with_capacity')
+def _(it, ci, a, d):
+    return VecV([])
+
+
+@model('Vec::first', 'slice::first')
+def _(it, ci, a, d):
+    v = deref(a[0])
+    return some(Ref(v.fields, 0)) if v.fields else none()
+
+
+@model('Vec::contains')
+def _(it, ci, a, d):
+    return TABLE['slice::contains'](it, ci, a, d)
+
+
+@model('HashMap::extend')
+def _(it, ci, a, d):
+    hm = _hm(a[0])
+    src = a[1]
+    if type(src) is Opaque and src.kind == 'HashMap':
+        for k, e in list(src.data.entries.items()):
+            if e.present is False:
+                continue
+            if e.present is not True:
+                if not it.decide(e.present, 'hm_extend_present:' + k):
+                    continue
+            hm.entries.pop(k, None) if False else None
+            old = hm.entries.get(k)
+            if old is not None and old.present is not False:
+                if old.present is not True:
+                    old.present = True
+                old.val = [e.val[0]]
+            else:
+                hm.entries.pop(k, None)
+                hm.entries[k] = HEntry(StringV(k), True, [e.val[0]])
+        return UNIT
+    si = src if (type(src) is Opaque and hasattr(src.data, 'next')) else it.models.std_into_iter(it, src)
+    for x in iter_drain(it, si):
+        TABLE['HashMap::insert'](it, ci, [a[0], x.fields[0], x.fields[1]], None)
+    return UNIT
+
+
+@model('HashMap::len')
+def _(it, ci, a, d):
+    hm = _hm(a[0])
+    n = 0
+    for k, e in hm.entries.items():
+        if e.present is True:
+            n += 1
+        elif e.present is not False:
+            if it.decide(e.present, 'hm_len_present:' + k):
+                e.present = True
+                n += 1
+            else:
+                e.present = False
+    return n
+
+
+@model('HashMap::is_empty')
+def _(it, ci, a, d):
+    return TABLE['HashMap::len'](it, ci, a, d) == 0
+
+
+@model('HashMap::get_mut')
+def _(it, ci, a, d):
+    return TABLE['HashMap::get'](it, ci, a, d)
+
+
+@model('HashMap::keys')
+def _(it, ci, a, d):
+    hm = _hm(a[0])
+    items = []
+    for k, e in hm.entries.items():
+        if e.present is False:
+            continue
+        if e.present is not True and not it.decide(e.present, 'hm_keys_present:' + k):
+            continue
+        items.append(Ref([e.key], 0))
+    return Opaque('Keys', PyIter(items))
+
+
+@model('HashMap::retain')
+def _(it, ci, a, d):
+    hm = _hm(a[0])
+    for k, e in list(hm.entries.items()):
+        if e.present is False:
+            continue
+        if e.present is not True:
+            if not it.decide(e.present, 'hm_retain_present:' + k):
+                e.present = False
+                continue
+            e.present = True
+        if not truthy(it, it.call_value(a[1], [Ref([e.key], 0), Ref(e.val, 0)])):
+            del hm.entries[k]
+    return UNIT
+
+
+@model('String::from_utf8_lossy')
+def _(it, ci, a, d):
+    raise Inconclusive('from_utf8_lossy')
+
+
+@model('String::insert_str')
+def _(it, ci, a, d):
+    s = deref(a[0])
+    s.s = sv(s)[:a[1]] + sv(a[2]) + sv(s)[a[1]:]
+    return UNIT
+
+
+@model('String::clear')
+def _(it, ci, a, d):
+    deref(a[0]).s = ''
+    return UNIT
+
+
+@model('String::truncate')
+def _(it, ci, a, d):
+    s = deref(a[0])
+    s.s = bslice(sv(s), 0, a[1])
+    return UNIT
+
+
+@model('String::pop')
+def _(it, ci, a, d):
+    s = deref(a[0])
+    x = sv(s)
+    if not x:
+        return none()
+    s.s = x[:-1]
+    return some(Char(x[-1]))
+
+
+@model('String::with_capacity')
+def _(it, ci, a, d):
+    return StringV('')
+
+
+@model('str::split_whitespace')
+def _(it, ci, a, d):
+    return Opaque('SplitWhitespace', PyIter(sv(a[0]).split()))
+
+
+@model('str::lines')
+def _(it, ci, a, d):
+    return Opaque('Lines', PyIter(sv(a[0]).splitlines()))
+
+
+@model('str::find')
+def _(it, ci, a, d):
+    s = sv(a[0])
+    p = a[1]
+    if type(p) is Char:
+        k = s.find(p.c)
+    elif type(deref(p)) in (str, StringV):
+        k = s.find(sv(p))
+    else:
+        raise Inconclusive('str::find with closure pattern')
+    return none() if k < 0 else some(len(s[:k].encode('utf-8')))
+
+
+@model('str::rfind')
+def _(it, ci, a, d):
+    s = sv(a[0])
+    p = a[1]
+    k = s.rfind(p.c if type(p) is Char else sv(p))
+    return none() if k < 0 else some(len(s[:k].encode('utf-8')))
+
+
+@model('str::strip_prefix')
+def _(it, ci, a, d):
+    s = sv(a[0])
+    p = _pat(a[1])
+    return some(s[len(p):]) if s.startswith(p) else none()
+
+
+@model('str::strip_suffix')
+def _(it, ci, a, d):
+    s = sv(a[0])
+    p = _pat(a[1])
+    return some(s[:len(s) - len(p)]) if s.endswith(p) else none()
+
+
+@model('str::split')
+def _(it, ci, a, d):
+    return Opaque('Split', PyIter(sv(a[0]).split(_pat(a[1]))))
+
+
+@model('str::as_bytes')
+def _(it, ci, a, d):
+    return Ref([VecV(list(sv(a[0]).encode('utf-8')))], 0)
+
+
+@model('str::is_char_boundary')
+def _(it, ci, a, d):
+    return _is_boundary(sv(a[0]).encode('utf-8'), a[1])
+
+
+@model('str::get')
+def _(it, ci, a, d):
+    s = sv(a[0])
+    idx = a[1]
+    try:
+        if idx.ty == 'Range':
+            return some(bslice(s, idx.fields[0], idx.fields[1]))
+        if idx.ty == 'RangeFrom':
+            return some(bslice(s, idx.fields[0], None))
+        if idx.ty == 'RangeTo':
+            return some(bslice(s, 0, idx.fields[0]))
+    except RustPanic:
+        return none()
+    raise Inconclusive('str::get')
+
+
+@model('str::char_indices')
+def _(it, ci, a, d):
+    s = sv(a[0])
+    items = []
+    off = 0
+    for c in s:
+        items.append(Tup([off, Char(c)]))
+        off += len(c.encode('utf-8'))
+    return Opaque('CharIndices', PyIter(items))
+
+
+@model('str::to_lowercase')
+def _(it, ci, a, d):
+    return StringV(sv(a[0]).lower())
+
+
+@model('str::to_uppercase')
+def _(it, ci, a, d):
+    return StringV(sv(a[0]).upper())
+
+
+@model('str::repeat')
+def _(it, ci, a, d):
+    return StringV(sv(a[0]) * a[1])
+
+
+@model('char::is_whitespace')
+def _(it, ci, a, d):
+    return deref(a[0]).c in WS
+
+
+@model('char::is_alphanumeric')
+def _(it, ci, a, d):
+    return deref(a[0]).c.isalnum()
+
+
+@model('char::is_alphabetic')
+def _(it, ci, a, d):
+    return deref(a[0]).c.isalpha()
+
+
+@model('char::is_numeric')
+def _(it, ci, a, d):
+    return deref(a[0]).c.isnumeric()
+
+
+@model('char::is_ascii')
+def _(it, ci, a, d):
+    return deref(a[0]).c.isascii()
+
+
+@model('char::is_ascii_punctuation')
+def _(it, ci, a, d):
+    import string
+    return deref(a[0]).c in string.punctuation
+
+
+@model('char::len_utf8')
+def _(it, ci, a, d):
+    return len(deref(a[0]).c.encode('utf-8'))
+
+
+@model('mem::swap', 'swap')
+def _(it, ci, a, d):
+    x, y = a[0].get(), a[1].get()
+    a[0].set(y)
+    a[1].set(x)
+    return UNIT
+
+
+@model('mem::replace', 'replace')
+def _(it, ci, a, d):
+    old = a[0].get()
+    a[0].set(a[1])
+    return old
+
+
+@model('mem::take', 'take')
+def _(it, ci, a, d):
+    old = a[0].get()
+    t = type(old)
+    if t is VecV:
+        a[0].set(VecV([]))
+    elif t is StringV:
+        a[0].set(StringV(''))
+    elif t is Opaque and old.kind == 'HashMap':
+        a[0].set(Opaque('HashMap', HashMapV()))
+    elif t is Enum and old.ty == 'Option':
+        a[0].set(none())
+    elif t is bool:
+        a[0].set(False)
+    elif t is int:
+        a[0].set(0)
+    else:
+        raise Inconclusive('mem::take of %r' % (old,))
+    return old
+
+
+@model('mem::drop', 'drop')
+def _(it, ci, a, d):
+    return UNIT
